@@ -109,7 +109,21 @@ def isinstance_(ip, st, v, cls):
     raise U("isinstance against %r" % (cls,))
 
 
+def obj_preds(ip):
+    """abstract predicates over (element, attribute name); a callable attribute is in particular an attribute"""
+    reg = ip.reg
+    reg.need_val()
+    reg.ufun("has_attr_Obj", ["Obj", "Key"], "Bool")
+    reg.ufun("callable_attr", ["Obj", "Key"], "Bool")
+    ax = T("(forall ((e Obj) (k Key)) (! (=> (callable_attr e k) (has_attr_Obj e k)) :pattern ((callable_attr e k))))", "Bool")
+    if not any(a.s == ax.s for a in reg.axioms):
+        reg.axioms.append(ax)
+
+
 def has_attr(ip, st, v, name):
+    if isinstance(v, Opaque) and v.sort == "Obj":
+        obj_preds(ip)
+        return T("(has_attr_Obj %s %s)" % (v.t.s, ip.reg.key(name).s), "Bool")
     if isinstance(v, Opaque) and v.sort in ("Obj", "V"):
         f = ip.reg.ufun("has_%s_%s" % (name.strip("_") or "x", v.sort) if name.startswith("__") else "has_%s_%s" % (name, v.sort), [v.sort], "Bool")
         return T("(%s %s)" % (f, v.t.s), "Bool")
@@ -145,9 +159,8 @@ def is_callable(ip, st, v):
     if isinstance(v, Fun):
         if v.kind == "elem-method":
             # "the element has this attribute and it is callable" (abstract predicate over element and attribute name)
-            ip.reg.need_val()
-            f = ip.reg.ufun("callable_attr", ["Obj", "Key"], "Bool")
-            return T("(%s %s %s)" % (f, v.elem.t.s, method_key(ip, v).s), "Bool")
+            obj_preds(ip)
+            return T("(callable_attr %s %s)" % (v.elem.t.s, method_key(ip, v).s), "Bool")
         return TRUE
     if isinstance(v, Opaque) and v.sort in ("Obj", "V"):
         f = ip.reg.ufun("is_callable_" + v.sort, [v.sort], "Bool")
@@ -349,7 +362,9 @@ def call_builtin(ip, st, name, pos, kws, node):
     if name == "type":
         raise U("type()")
     if name == "super":
-        return [(st, Fun("super"))]
+        if len(pos) == 2 and isinstance(pos[0], Fun) and pos[0].kind == "class" and isinstance(pos[1], Ref):
+            return [(st, Fun("super", cls=pos[0].name, self_ref=pos[1]))]
+        raise U("super() without explicit (Class, self)")
     if name == "setattr":
         raise U("setattr with computed name")
     raise U("builtin " + name)
